@@ -63,6 +63,9 @@ class Report:
                       "queries", "validated", "cast_traps"):
                 g[k] += getattr(r, k)
             g["solver_s"] += r.solver_s
+            for n, k in getattr(r, "notes", {}).items():
+                g.setdefault("notes", {})
+                g["notes"][n] = g["notes"].get(n, 0) + k
             g["violations"] += len(r.violations)
             for v in r.violations:
                 v = dict(v)
